@@ -28,7 +28,7 @@ theorem gate_completed_ok (s : Sys) (t : Tid) (i d : IId) (rest) (ht : t < s.thr
   · simp [h, thr_setPc_notePassed_self _ _ _ _ _ _ ht]
   · simp only [h, true_and, ne_eq, not_false_eq_true, ↓reduceIte, doSkip]
     rw [thr_setPc_self]
-    simpa [onProcessEnd, setState] using ht
+    simpa [onProcessEnd, setState, addDone] using ht
 
 /-- `process_completed`: any exit code lets the dependent proceed. -/
 theorem gate_completed (s : Sys) (t : Tid) (i d : IId) (rest) (ht : t < s.threads.length) :
@@ -44,7 +44,7 @@ theorem gate_healthy (s : Sys) (t : Tid) (i d : IId) (rest) (ht : t < s.threads.
   · simp [h, thr_setPc_notePassed_self _ _ _ _ _ _ ht]
   · simp only [h, ↓reduceIte, doSkip]
     rw [thr_setPc_self]
-    simpa [onProcessEnd, setState] using ht
+    simpa [onProcessEnd, setState, addDone] using ht
 
 /-- `process_log_ready`: proceeds iff the ready line was seen (the latch was released as `ok`). -/
 theorem gate_logready (s : Sys) (t : Tid) (i d : IId) (rest) (ht : t < s.threads.length) :
@@ -55,7 +55,7 @@ theorem gate_logready (s : Sys) (t : Tid) (i d : IId) (rest) (ht : t < s.threads
   · simp [h, thr_setPc_notePassed_self _ _ _ _ _ _ ht]
   · simp only [h, ↓reduceIte, doSkip]
     rw [thr_setPc_self]
-    simpa [onProcessEnd, setState] using ht
+    simpa [onProcessEnd, setState, addDone] using ht
 
 /-- The log-ready latch is `ok` only through a ready line: every other release marks it `aborted`,
     and once set it never changes (`Inst.Le.logReady`). -/
